@@ -175,6 +175,21 @@ nclamped = len(re.findall(r"compute_reciprocal\(\s*CLAMP_DIVISOR\(", jcd))
 divisor_clamped = 1 if (m and m.group(1) == m.group(2) == "65535" and ncalls > 0 and ncalls == nclamped) else 0
 consts["DIVISOR_CLAMP"] = int(m.group(1)) if m else 0
 consts["DIVISOR_CLAMPED_EVERYWHERE"] = divisor_clamped
+# F13 fix: a zero quantization value is rejected before any divisor is computed
+m = re.search(r"qtbl = cinfo->quant_tbl_ptrs\[qtblno\];\s*for \(i = 0; i < DCTSIZE2; i\+\+\) \{\s*if \(qtbl->quantval\[i\] == 0\)\s*"
+              r"ERREXIT1\(cinfo, JERR_NO_QUANT_TABLE, qtblno\);\s*\}", jcd)
+consts["ZERO_QUANT_REJECTED"] = 1 if m else 0
+# F12 fix: validate_script checks the component count before touching its per-component arrays
+m = re.search(r"if \(cinfo->num_scans <= 0\)\s*ERREXIT1\(cinfo, JERR_BAD_SCAN_SCRIPT, 0\);\s*"
+              r"if \(cinfo->num_components > MAX_COMPONENTS\)\s*ERREXIT2\(cinfo, JERR_COMPONENT_COUNT, cinfo->num_components,\s*MAX_COMPONENTS\);", jcm)
+consts["NCOMP_CHECK_IN_VALIDATE"] = 1 if m else 0
+# F14 fix: the script is validated again after lossless mode reset the colour space
+m = re.search(r"jpeg_default_colorspace\(cinfo\);\s*#ifdef NEED_SCAN_SCRIPT\s*if \(cinfo->scan_info != NULL\)\s*validate_script\(cinfo\);\s*#endif\s*"
+              r"for \(ci = 0, compptr = cinfo->comp_info; ci < cinfo->num_components;", jcm)
+consts["REVALIDATE_AFTER_LOSSLESS"] = 1 if m else 0
+m = re.search(r"if \(cinfo->scan_info != NULL\) \{\s*#ifdef NEED_SCAN_SCRIPT\s*validate_script\(cinfo\);", jcm)
+if not m:
+    die("jcmaster.c: jinit_c_master_control no longer validates the script first")
 
 # ---------------------------------------------------------------- turbojpeg
 tjh = rd("turbojpeg.h")
@@ -268,7 +283,8 @@ for k in ["DCTSIZE", "DCTSIZE2", "MAX_COMPONENTS", "MAX_COMPS_IN_SCAN", "C_MAX_B
           "NUM_QUANT_TBLS", "NUM_HUFF_TBLS", "NUM_ARITH_TBLS", "JPEG_MAX_DIMENSION", "BUFSIZE", "BIT_BUF_SIZE", "BIT_BUF_SIZE_32",
           "MAX_COEF_BITS_ADD", "DC_EXTRA_BITS", "AHAL_PREC", "MAX_AH_AL_HI", "MAX_AH_AL_LO", "LOSSLESS_PREC_MIN", "LOSSLESS_PREC_MAX",
           "LOSSY_PREC_A", "LOSSY_PREC_B", "RESTART_MAX", "PSV_MIN", "PSV_MAX", "QUANT_MIN", "QUANT_MAX", "QUANT_BASELINE_MAX",
-          "QUALITY_MIN", "QUALITY_MAX", "DIVISOR_CLAMP", "DIVISOR_CLAMPED_EVERYWHERE", "TJ_NUMSAMP", "TJ_NUMCS"]:
+          "QUALITY_MIN", "QUALITY_MAX", "DIVISOR_CLAMP", "DIVISOR_CLAMPED_EVERYWHERE", "ZERO_QUANT_REJECTED",
+          "NCOMP_CHECK_IN_VALIDATE", "REVALIDATE_AFTER_LOSSLESS", "TJ_NUMSAMP", "TJ_NUMCS"]:
     out.append("Definition g_%s : Z := %d." % (k, consts[k]))
 out.append("\n(* zigzag order of encode_one_block: position 0 and the 63 kloop() arguments *)")
 out.append("Definition g_kloop_order : list Z :=\n  [%s]." % "; ".join(map(str, zz)))
